@@ -698,7 +698,7 @@ def cpr_tie_ops(rng, n):
 
 class C05(Prop):
     id = "C05"; module = "Adsb.Theorems.C05"; design_ref = "5/C05"
-    modules = ["Adsb.Theorems.C05", "Adsb.Theorems.C05b"]
+    modules = ["Adsb.Theorems.C05", "Adsb.Theorems.C05b", "Adsb.Theorems.C05c"]
     deps = ["shape:get_position", "shape:positive_mod", "shape:get_lat_lon"]
     abs_tol = 1e-6
     rule = ("true positions on a lattice over the sphere, at the poles, the equator, the antimeridian, on both sides of each of the 58 NL transition "
@@ -710,6 +710,7 @@ class C05(Prop):
              "an even and an odd report produced by the DO-260B encoder decode, in either order, to exactly the latest report's position rounded to its own CPR grid (within half a bin, ~2.6 m), "
              "longitude in [-180,180); different NL bands give none (zone_mismatch_none); re-encoding gives the transmitted values (reencode_lat/lon); every returned position is in range "
              "(position_range); cpr_nl tree = published NL table (cprNl_eq_table, nl_tree_is_table re-checked against the source); equal parity gives none; "
+             "the longitude hypothesis follows from 'at most 3 NM east-west at the decoded latitude' for every entry of the code's own NL table (Theorems/C05c: lonClose_of_3NM, cpr_correct_within_3NM; cosine bounded below by 1-x^2/2 and y-y^3/6 with 3.1415 < pi < 3.1416); "
              "the exact Rat instance and the Float instance are one definition, tied numerically to the f64 code")
     note = "IEEE rounding of the f64 evaluation is not modelled; positions within 1e-9 deg of an NL transition / +-90 are treated as borderline in the comparison"
     def equal(self, a, m): return a == m or numeq(a, m, 1e-6)
